@@ -37,6 +37,7 @@ type Verifier struct {
 	srcCache  map[string][]string
 	allFuncs  map[*ssa.Function]bool
 	repo      string
+	covers    bool
 }
 
 type FuncReport struct {
@@ -508,10 +509,12 @@ func gen(args []string) {
 	specs := fs.String("specs", "/verif/specs", "directory with *.spec files")
 	sweep := fs.String("sweep", "", "packages whose every function is checked for guard obligations")
 	only := fs.String("only", "", "verify only this function key (debug)")
+	covers := fs.Bool("covers", false, "also generate cover (reachability) queries for preconditions and loop invariants")
 	fs.Parse(args)
 	os.MkdirAll(*out, 0o755)
 	pkgList := strings.Split(*pkgsF, ",")
 	v := load(*repo, pkgList)
+	v.covers = *covers
 	res := &Output{Property: *prop}
 	if err := v.loadContracts(*specs); err != nil {
 		res.Faults = append(res.Faults, err.Error())
